@@ -3,9 +3,10 @@ Proof::Insecure, DS->DNSKEY guard set, who writes Record.proof, verify_response 
 import re
 from collections import Counter
 from api import shorten, writers, Site
+import C06
 
 EXPLANATION = (
-    "WRITE/GUARD/TABLE rules over the feature-full build: (W1) every construction of Proof::Secure and Proof::Insecure in "
+    "WRITE/GUARD/TABLE rules over the feature-full build: (SIG) the signature-acceptance guard sets of C06.G1-G3 (a chain link is a signature over exactly that RRset by a Secure zone key inside its window), (W1) every construction of Proof::Secure and Proof::Insecure in "
     "hickory-net/-resolver/-server is one of the reviewed origins (trust-anchor match, DS-covers-DNSKEY, signature check, the "
     "NSEC/NSEC3 yields, proven DS absence / unsupported algorithms) - a new origin is a violation; (G1) verify_dnskey returns "
     "Secure only for a supported key algorithm, a Secure DS with equal algorithm and key tag, within the key-tag collision cap, "
@@ -62,6 +63,8 @@ def origins(prog, variant):
 
 
 def run(cx):
+    # every chain link rests on signature acceptance: the C06 guard sets are necessary conditions here too
+    C06.signature_rules(cx, 'C07.SIG')
     # ---------------------------------------------------------------- W1 origin census
     for variant, table in (('Secure', SECURE_ORIGINS), ('Insecure', INSECURE_ORIGINS)):
         c, where = origins(cx.prog, variant)
